@@ -22,6 +22,7 @@ import (
 
 	olddrpc "drpcv0017"
 	oldconn "drpcv0017/drpcconn"
+	oldmeta "drpcv0017/drpcmetadata"
 	oldserver "drpcv0017/drpcserver"
 	oldstream "drpcv0017/drpcstream"
 	oldwire "drpcv0017/drpcwire"
@@ -29,6 +30,7 @@ import (
 	"storj.io/drpc"
 	"storj.io/drpc/drpcconn"
 	"storj.io/drpc/drpcmanager"
+	"storj.io/drpc/drpcmetadata"
 	"storj.io/drpc/drpcserver"
 	"storj.io/drpc/drpcwire"
 
@@ -601,6 +603,73 @@ func controlInjection(id string, seed uint64) runner.Result {
 	return res
 }
 
+// metadataCompat: a batch of seeded metadata maps with key/value lengths at the length-prefix
+// boundaries; what the current encoder writes is read back identically by v0.0.17, and what v0.0.17
+// writes is read back identically by the current decoder.
+func metadataCompat(id string, seed uint64) runner.Result {
+	r := &payload.SplitMix{S: seed}
+	lens := []int{0, 1, 2, 125, 126, 127, 128, 129, 130, 255, 256, 16381, 16382, 16383, 16384, 16385, 16386, 16511, 16512}
+	str := func(c byte) string {
+		n := r.Intn(40)
+		if r.Intn(2) == 0 {
+			n = payload.Pick(r, lens)
+		}
+		b := make([]byte, n)
+		for i := range b {
+			b[i] = c + byte(r.Intn(20)) // printable ASCII: valid UTF-8, which v0.0.17's string fields require
+		}
+		return string(b)
+	}
+	var fails []string
+	var n int64
+	for k := 0; k < 40 && len(fails) == 0; k++ {
+		m := map[string]string{}
+		for i := 0; i < 1+r.Intn(4); i++ {
+			m[str('a')] = str('A')
+		}
+		same := func(x map[string]string) bool {
+			if len(x) != len(m) {
+				return false
+			}
+			for k, v := range m {
+				if xv, ok := x[k]; !ok || xv != v {
+					return false
+				}
+			}
+			return true
+		}
+		var shape []string
+		for k, v := range m {
+			shape = append(shape, fmt.Sprintf("%d:%d", len(k), len(v)))
+		}
+		desc := fmt.Sprintf("map with key:value lengths %v", shape)
+		enc, err := drpcmetadata.Encode(nil, m)
+		if err != nil {
+			fails = append(fails, fmt.Sprintf("%s: current Encode failed: %v", desc, err))
+			continue
+		}
+		if om, err := oldmeta.Decode(enc); err != nil || !same(om) {
+			fails = append(fails, fmt.Sprintf("%s: v0.0.17 does not read back what the current encoder wrote (err=%v, %d entries)", desc, err, len(om)))
+		}
+		oenc, err := oldmeta.Encode(nil, m)
+		if err != nil {
+			fails = append(fails, fmt.Sprintf("%s: v0.0.17 Encode failed: %v", desc, err))
+			continue
+		}
+		if nm, err := drpcmetadata.Decode(oenc); err != nil || !same(nm) {
+			fails = append(fails, fmt.Sprintf("%s: the current decoder does not read back what v0.0.17 wrote (err=%v, %d entries)", desc, err, len(nm)))
+		}
+		n++
+	}
+	if len(fails) > 0 {
+		return runner.Violation(id, "metadata-compat", strings.Join(fails, "\n"))
+	}
+	res := runner.Hold(id, fmt.Sprint(seed), true)
+	res.Events = n
+	res.Stats = map[string]int64{"metadata_maps": n}
+	return res
+}
+
 func gen(tier string, seed uint64) []runner.Scenario {
 	n := 150
 	if tier == "thorough" {
@@ -618,6 +687,9 @@ func gen(tier string, seed uint64) []runner.Scenario {
 		add("interop-old-client", func(id string) runner.Result { return interop(id, payload.Hash(seed, 0x183, uint64(i)), true) })
 		add("interop-new-client", func(id string) runner.Result { return interop(id, payload.Hash(seed, 0x184, uint64(i)), false) })
 		add("control-injection", func(id string) runner.Result { return controlInjection(id, payload.Hash(seed, 0x185, uint64(i))) })
+		if i%5 == 0 {
+			add("metadata-compat", func(id string) runner.Result { return metadataCompat(id, payload.Hash(seed, 0x186, uint64(i))) })
+		}
 	}
 	return out
 }
@@ -628,7 +700,7 @@ func main() {
 	runner.Main(runner.Check{
 		Property: "C18",
 		Level:    "exploration",
-		Rule:     "five families against the vendored released v0.0.17: (new-to-old) both directions' byte streams of seeded multi-RPC programs of the current code (soft cancel on, clean and early-ending RPCs, metadata) decoded by both readers, and every packet the old reader delivers must be of a kind v0.0.17 knows; (old-to-new) seeded operation sequences on the v0.0.17 stream/writer layer (split sizes, writer buffers, invoke/metadata/messages up to 150 KB/close/closesend/error) plus packets abandoned mid-write, decoded by both readers; (interop) one RPC of each of the four shapes between an old client and a new server and between a new client and an old server over chunked transports; (control-injection) raw sessions with unknown kinds 8-63 carrying the control bit, single and multi-frame, aimed at the current stream (inside an RPC), at the stream that just ended and at a not-yet-invoked stream id (between RPCs, after the reply arrived). Metadata compatibility is covered by C11. Non-trivial: streams with bytes / sessions with at least one injection. Distinct: by seed-determined program text.",
+		Rule:     "six families against the vendored released v0.0.17: (new-to-old) both directions' byte streams of seeded multi-RPC programs of the current code (soft cancel on, clean and early-ending RPCs, metadata) decoded by both readers, and every packet the old reader delivers must be of a kind v0.0.17 knows; (old-to-new) seeded operation sequences on the v0.0.17 stream/writer layer (split sizes, writer buffers, invoke/metadata/messages up to 150 KB/close/closesend/error) plus packets abandoned mid-write, decoded by both readers; (interop) one RPC of each of the four shapes between an old client and a new server and between a new client and an old server over chunked transports; (control-injection) raw sessions with unknown kinds 8-63 carrying the control bit, single and multi-frame, aimed at the current stream (inside an RPC), at the stream that just ended and at a not-yet-invoked stream id (between RPCs, after the reply arrived). (metadata-compat) seeded metadata maps with key/value lengths at the length-prefix boundaries (0..2, 125..130, 255/256, 16381..16386, 16511/16512) encoded by each generation and decoded by the other; deeper metadata coverage is in C11. Non-trivial: streams with bytes / sessions with at least one injection. Distinct: by seed-determined program text.",
 		Assumptions: []string{
 			"the vendored copy under /verif/third_party/drpc_v0017 is the released v0.0.17 with only import paths renamed",
 			"frames stay within the old reader's 1 MiB scanner limit",
